@@ -21,6 +21,10 @@ def gen(rng):
     if kind == "bloom":
         est = rng.choice([1, 2, 3, 10, 100, 1000, 141510, 10**6]) if rng.random() < 0.5 else rng.randint(1, 10**rng.randint(1, 6))
         p = rng.choice([0.5, 0.25, 0.3, 0.1, 0.05, 0.01, 0.001, 1e-6, 0.7071, 0.9, 0.6]) if rng.random() < 0.5 else (rng.random() if rng.random() < 0.6 else 10 ** rng.uniform(-20, 0))
+        if rng.random() < 0.08:
+            # rates near the bottom of the 32-bit float range: below 1.18e-38 the stored rate is subnormal
+            est = rng.choice([1, 2, 10, 50])
+            p = rng.choice([1e-37, 1.2e-38, 1e-39, 3e-41, 1e-43, 1e-44, 1.5e-45, 10 ** rng.uniform(-45, -20)])
         return {"kind": kind, "est": est, "p": p}
     if kind == "cms":
         return {"kind": kind, "conf": rng.choice([0.5, 0.75, 0.9, 0.95, 0.99, 0.999]) if rng.random() < 0.5 else rng.uniform(1e-4, 0.9999), "err": rng.choice([0.5, 0.25, 0.1, 0.01, 0.001]) if rng.random() < 0.5 else rng.uniform(1e-4, 0.99)}
